@@ -1,7 +1,7 @@
 (* Properties/C04.v — Reported field offsets locate the field's bytes in the encoding.
    Only statements, each closed by `exact` of a lemma proved in Offsets/OffsetProofs.v. *)
 From FV Require Import Base.Bytes Base.U64 Codec.CodecModel Gen.Schemas Gen.TxConsts TxId.IdSpec
-     Offsets.OffsetSpec Offsets.OffsetModel Offsets.OffsetProofs Offsets.OffsetDynamic.
+     Offsets.OffsetSpec Offsets.OffsetModel Offsets.OffsetProofs Offsets.OffsetDynamic Offsets.OffsetCached Offsets.OffsetInput.
 Local Open Scope list_scope.
 Open Scope N_scope.
 
@@ -115,31 +115,68 @@ Theorem C04_locates_script :
 Proof. exact script_offsets_locate. Qed.
 Print Assumptions C04_locates_script.
 
-(* OPEN (not proved; executed on every correspondence case by Run/Offsets.v statement_holds /
-   check_off, and checked on the real code by the oracle): storage slots and proof entries, the
-   value-dependent offsets inside an input (data, predicate, predicate data) and
-   inputs_predicate_offset_at with its padded length; answers of a precomputed transaction =
-   answers computed without metadata. *)
-Definition C04_locates_body_vectors_statement : Prop :=
-  forall (k : kind) (v : val) (f : atfn) (i : nat) (s : sel) (o : N),
+(* offsets read from cached metadata = offsets computed without it.  precompute drops whatever
+   metadata [m] the transaction carries (e.g. stale after an edit) and stores the offsets of the
+   CURRENT value: every offset function then answers as on the transaction without metadata.
+   No typing hypothesis. *)
+Theorem C04_cached :
+  forall (k : kind) (v : val) (m : option (cmeta * option N)) (tx1 : otx),
+    precompute_offsets true {| o_kind := k; o_val := v; o_meta := m |} = Some tx1 ->
+    o_kind tx1 = k /\ o_val tx1 = v /\
+    (forall f, tx_offset tx1 f = tx_offset {| o_kind := k; o_val := v; o_meta := None |} f) /\
+    (forall f idx, tx_offset_at tx1 f idx = tx_offset_at {| o_kind := k; o_val := v; o_meta := None |} f idx) /\
+    (forall idx, tx_predicate_offset_at tx1 idx = tx_predicate_offset_at {| o_kind := k; o_val := v; o_meta := None |} idx).
+Proof. exact cached_equals_uncached. Qed.
+Print Assumptions C04_cached.
+
+(* storage slots of a Create, proof entries of an Upload: Some o exactly for the indices in range,
+   and then o is where the element's canonical encoding is; and the starts of the two vectors *)
+Theorem C04_locates_body_vectors :
+  forall (k : kind) (v : val) (f : atfn) (idx : N) (name : String.string) (te : ty) (w : N) (st : String.string),
+    body_vector k f = Some (name, te, w, st) ->
     typed (kind_ty k) v = true -> lenN (enc (kind_ty k) v) <= u64_max ->
-    (f = StorageSlotsOffsetAt \/ f = ProofSetOffsetAt) ->
-    at_sel k f i = Some s -> tx_offset_at {| o_kind := k; o_val := v; o_meta := None |} f (N.of_nat i) = Some o ->
-    exists bs, locate_in (kind_ty k) v s = Some (o, bs).
-Definition C04_locates_input_dynamic_statement : Prop :=
+    match tx_offset_at {| o_kind := k; o_val := v; o_meta := None |} f idx with
+    | Some o => exists i s bs, idx = N.of_nat i /\ at_sel k f i = Some s /\
+                               locate_in (kind_ty k) v s = Some (o, bs) /\ slice (enc (kind_ty k) v) o (lenN bs) = bs
+    | None => forall i s, idx = N.of_nat i -> at_sel k f i = Some s -> locate_in (kind_ty k) v s = None
+    end.
+Proof. exact body_vectors_locate. Qed.
+Print Assumptions C04_locates_body_vectors.
+Theorem C04_locates_body_vector_starts :
+  forall (k : kind) (v : val) (f : tfn) (s : sel) (o : N),
+    (k = KCreate /\ f = StorageSlotsOffsetStatic \/ k = KUpload /\ f = ProofSetOffset) ->
+    typed (kind_ty k) v = true -> tx_sel k f = Some s ->
+    tx_offset {| o_kind := k; o_val := v; o_meta := None |} f = Some o ->
+    exists bs, locate_in (kind_ty k) v s = Some (o, bs) /\ slice (enc (kind_ty k) v) o (lenN bs) = bs.
+Proof. exact body_vector_starts_locate. Qed.
+Print Assumptions C04_locates_body_vector_starts.
+
+(* inside an input: the data of a message, the predicate of a coin, the predicate of a predicate
+   coin / message-coin (offsets that do not depend on another byte vector) *)
+Theorem C04_locates_input_dynamic_const :
+  forall (f : infn) (j : nat) (x : val) (n : String.string) (o : N),
+    (j < 7)%nat -> typed (input_comp j) x = true ->
+    in_field_of f j = Some (n, PDynamic) ->
+    (f = DataOffset \/ f = CoinPredicateOffset \/ (f = PredicateOffset /\ j <> 6%nat)) ->
+    input_fn f (VE j [x]) = Some o ->
+    exists s bs, in_sel f j = Some s /\ locate_in S_Input (VE j [x]) s = Some (o, bs) /\
+                 slice (enc S_Input (VE j [x])) o (lenN bs) = bs.
+Proof. exact input_dynamic_const. Qed.
+Print Assumptions C04_locates_input_dynamic_const.
+
+(* OPEN (not proved; executed on every correspondence case by Run/Offsets.v statement_holds, and
+   checked on the real code by the oracle): the two offsets inside an input that come after another
+   byte vector (predicate after message data; predicate data after the predicate), and
+   inputs_predicate_offset_at with its padded length. *)
+Definition C04_locates_input_dynamic_after_statement : Prop :=
   forall (f : infn) (j : nat) (x : val) (n : String.string) (o : N),
     (j < 7)%nat -> typed (input_comp j) x = true -> lenN (enc S_Input (VE j [x])) <= u64_max ->
-    in_field_of f j = Some (n, PDynamic) -> input_fn f (VE j [x]) = Some o ->
+    in_field_of f j = Some (n, PDynamic) ->
+    (f = PredicateDataOffset \/ (f = PredicateOffset /\ j = 6%nat)) ->
+    input_fn f (VE j [x]) = Some o ->
     exists s bs, in_sel f j = Some s /\ locate_in S_Input (VE j [x]) s = Some (o, bs).
 Definition C04_predicate_padded_statement : Prop :=
   forall (k : kind) (v : val) (i : nat) (o len : N),
     typed (kind_ty k) v = true -> lenN (enc (kind_ty k) v) <= u64_max ->
     tx_predicate_offset_at {| o_kind := k; o_val := v; o_meta := None |} (N.of_nat i) = Some (o, len) ->
     exists j bs s, pred_sel i j = Some s /\ locate_in (kind_ty k) v s = Some (o, bs) /\ len = lenN bs.
-Definition C04_cached_statement : Prop :=
-  forall (k : kind) (v : val) (tx1 : otx),
-    typed (kind_ty k) v = true ->
-    precompute_offsets true {| o_kind := k; o_val := v; o_meta := None |} = Some tx1 ->
-    (forall f, tx_offset tx1 f = tx_offset {| o_kind := k; o_val := v; o_meta := None |} f) /\
-    (forall f idx, tx_offset_at tx1 f idx = tx_offset_at {| o_kind := k; o_val := v; o_meta := None |} f idx) /\
-    (forall idx, tx_predicate_offset_at tx1 idx = tx_predicate_offset_at {| o_kind := k; o_val := v; o_meta := None |} idx).
